@@ -553,6 +553,33 @@ func c04AnchoringAndConsumption(r *an.Run) {
 		}
 	}
 	r.Check(len(restCalls) >= 1, short(ms)+"|rest-evaluated", ms.Pos(), "the remaining sections are evaluated inside the candidate loop (%d call(s))", len(restCalls))
+	// every candidate position is tried: on every way back to the loop header the candidate index has grown by
+	// exactly one (skipping ahead after a failed candidate loses occurrences that overlap it)
+	for _, in := range loop.Header.Instrs {
+		phi, ok := in.(*ssa.Phi)
+		if !ok || an.ShortType(phi.Type()) != "int" {
+			continue
+		}
+		isCandidate := false
+		for _, c := range an.Calls(ms) {
+			if an.StaticCallee(c) == mp && loop.Blocks[c.Block()] {
+				a := c.Common().Args
+				if a[len(a)-1] == ssa.Value(phi) {
+					isCandidate = true
+				}
+			}
+		}
+		if !isCandidate {
+			continue
+		}
+		for i, e := range phi.Edges {
+			if !loop.Blocks[loop.Header.Preds[i]] {
+				continue
+			}
+			d := an.Lin(e).Sub(an.Lin(phi))
+			r.Check(len(d.Terms) == 0 && d.K == 1, short(ms)+"|every-candidate-tried", phi.Pos(), "the candidate index advances by exactly one per attempt (found step %s on the edge from block %d): no start position is skipped, so an occurrence that overlaps a failed one is still found", d.String(), loop.Header.Preds[i].Index)
+		}
+	}
 	// memo refresh
 	var memo *ssa.Parameter
 	for _, p := range ms.Params {
